@@ -37,6 +37,19 @@ func matID(mm modeling.MeshMaterial) int {
 
 // meshTokens walks the mesh through its public accessors only (Indices, FloatNAttributes,
 // FloatNAttribute(name).At(i)); full=false omits the values (shape only, prefix "S").
+// fsN prints floats as IEEE bit patterns; every NaN becomes one canonical pattern (the driver does the same)
+func fsN(fs ...float64) string {
+	parts := make([]string, len(fs))
+	for i, f := range fs {
+		if math.IsNaN(f) {
+			parts[i] = "7ff8000000000001"
+		} else {
+			parts[i] = F(f)
+		}
+	}
+	return strings.Join(parts, " ")
+}
+
 func meshTokens(m modeling.Mesh, full bool) string {
 	var sb strings.Builder
 	if full {
@@ -61,7 +74,7 @@ func meshTokens(m modeling.Mesh, full bool) string {
 		fmt.Fprintf(&sb, " 1 %s %d", a, d.Len())
 		if full {
 			for i := 0; i < d.Len(); i++ {
-				sb.WriteString(" " + F(d.At(i)))
+				sb.WriteString(" " + fsN(d.At(i)))
 			}
 		}
 	}
@@ -71,7 +84,7 @@ func meshTokens(m modeling.Mesh, full bool) string {
 		if full {
 			for i := 0; i < d.Len(); i++ {
 				v := d.At(i)
-				sb.WriteString(" " + Fs(v.X(), v.Y()))
+				sb.WriteString(" " + fsN(v.X(), v.Y()))
 			}
 		}
 	}
@@ -81,7 +94,7 @@ func meshTokens(m modeling.Mesh, full bool) string {
 		if full {
 			for i := 0; i < d.Len(); i++ {
 				v := d.At(i)
-				sb.WriteString(" " + Fs(v.X(), v.Y(), v.Z()))
+				sb.WriteString(" " + fsN(v.X(), v.Y(), v.Z()))
 			}
 		}
 	}
@@ -91,7 +104,7 @@ func meshTokens(m modeling.Mesh, full bool) string {
 		if full {
 			for i := 0; i < d.Len(); i++ {
 				v := d.At(i)
-				sb.WriteString(" " + Fs(v.X(), v.Y(), v.Z(), v.W()))
+				sb.WriteString(" " + fsN(v.X(), v.Y(), v.Z(), v.W()))
 			}
 		}
 	}
@@ -376,7 +389,7 @@ func (c *Ctx) smallV3() vector3.Float64 {
 }
 
 var layoutOps = []string{"unweld", "removeunref", "flip", "topointcloud", "setindices", "append", "filter", "split", "weld", "crop", "removenull"}
-var transformOps = []string{"translate", "scale", "meshscale", "rotate", "applytrs"}
+var transformOps = []string{"translate", "scale", "meshscale", "rotate", "applytrs", "center", "normalize", "smoothnormals", "flatnormals", "laplacian"}
 
 // applyOp runs operation `name` of the real packages on m with generated parameters.
 func (c *Ctx) applyOp(name string, m modeling.Mesh) opRun {
@@ -561,6 +574,27 @@ func (c *Ctx) applyOp(name string, m modeling.Mesh) opRun {
 		t := trs.New(p, q, s)
 		return runOp(name, fmt.Sprintf("%s %s %s %s", mvF(p), mqF(q), mvF(s), ms), false, func() []modeling.Mesh {
 			return one(m.ApplyTRS(t))
+		})
+	case "center":
+		attr := c.pickV3Attr(m)
+		return runOp(name, attr+" "+ms, false, func() []modeling.Mesh {
+			return tr(meshops.CenterAttribute3DTransformer{Attribute: attr}, m)
+		})
+	case "normalize":
+		attr := c.pickV3Attr(m)
+		return runOp(name, attr+" "+ms, false, func() []modeling.Mesh {
+			return tr(meshops.NormalizeAttribute3DTransformer{Attribute: attr}, m)
+		})
+	case "smoothnormals":
+		return runOp(name, ms, false, func() []modeling.Mesh { return tr(meshops.SmoothNormalsTransformer{}, m) })
+	case "flatnormals":
+		return runOp(name, ms, false, func() []modeling.Mesh { return tr(meshops.FlatNormalsTransformer{}, m) })
+	case "laplacian":
+		attr := c.pickV3Attr(m)
+		iters := c.Rng.Intn(4)
+		factor := []float64{0.5, 0.25, 1, 0.1, 0}[c.Rng.Intn(5)]
+		return runOp(name, fmt.Sprintf("%s %d %s %s", attr, iters, F(factor), ms), false, func() []modeling.Mesh {
+			return one(meshops.LaplacianSmooth(m, attr, iters, factor))
 		})
 	}
 	panic("unknown op " + name)
